@@ -366,6 +366,242 @@ static void retry_fingerprint(void)
   vh_fp_add(h);
 }
 
+
+/* ------------------------------------------------------------------ C20: transport A/B differential */
+typedef struct {
+  int      ntok;
+  int      status[APP_MAXTOK];
+  int      timeouts[APP_MAXTOK];
+  int      cbs[APP_MAXTOK];
+  int      nser[APP_MAXTOK];
+  uint64_t serhash[APP_MAXTOK];
+  int      ntx;
+  uint64_t txhash;     /* server-side view: sequence of (srv, tcp, qname, qtype, opt) */
+  uint64_t txhash_tcp; /* TCP only, per connection order */
+  int      ntx_tcp;
+  int      bad_frames;
+  int      splits, shorts, wblocks;
+} xp_digest_t;
+
+static xp_digest_t xp_a, xp_b;
+static int         xp_bad_frames;
+static int         xp_tc_followup_violations;
+
+static void xp_frame_hook(int srvidx, int fd, int is_tcp, const uint8_t *msg, size_t len)
+{
+  sdns_query_t q;
+  (void)srvidx;
+  (void)fd;
+  if (!is_tcp) {
+    return;
+  }
+  sdns_decode_query(msg, len, &q);
+  MON_EVAL("xport_frame_decodes");
+  if (!q.ok || !q.wellformed || q.qr) {
+    xp_bad_frames++;
+    vh_violation("xport:undecodable-frame", "TCP frame of %zu bytes received by server %d is not a well-formed query (ok=%d wf=%d)", len,
+                 srvidx, q.ok, q.wellformed);
+  }
+}
+
+static void gen_transport(vh_rng_t *rng)
+{
+  int i, n;
+  gen_profile_flags = GP_ONLY_WIRE | GP_SIMPLE_NAMES | GP_NO_REENTRANT | GP_NO_CANCEL_IN_CB | GP_NO_WEIRD_TYPES;
+  gen_default_simcfg(rng, 0);
+  gen_default_appcfg(rng);
+  gen_srv_base(3);
+  sim_no_subms_jitter = 1;
+  for (i = 0; i < sim_nsrv; i++) {
+    vsrv_t *s = &sim_srv[i];
+    int     m = (int)vh_below(rng, 10);
+    memset(s->w_udp, 0, sizeof(s->w_udp));
+    memset(s->w_tcp, 0, sizeof(s->w_tcp));
+    /* deterministic behaviours only (single weight), so that runs A and B see the same servers */
+    s->w_udp[m < 5 ? SA_TC : m < 7 ? SA_ANSWER : m < 8 ? SA_SILENT : m < 9 ? SA_ZEROLEN : SA_SERVFAIL] = 1;
+    s->w_tcp[vh_chance(rng, 9, 10) ? SA_ANSWER : SA_NXDOMAIN]                                            = 1;
+    s->delay_min_ms = s->delay_max_ms = vh_range(rng, 0, 20);
+    s->tcp_connect                    = (int)vh_below(rng, 2);
+    s->tcp_connect_delay_ms           = vh_range(rng, 0, 10);
+    s->default_nrec                   = vh_chance(rng, 1, 3) ? vh_range(rng, 50, 3000) : vh_range(rng, 1, 20);
+    s->default_ttl                    = 300;
+    s->ck_mode                        = 1;
+    memset(s->ck_secret, 0x70 + i, 8);
+  }
+  app_cfg.flags = ARES_FLAG_EDNS;
+  if (vh_chance(rng, 1, 2)) {
+    app_cfg.flags |= ARES_FLAG_USEVC;
+  }
+  if (vh_chance(rng, 1, 6)) {
+    app_cfg.flags |= ARES_FLAG_IGNTC;
+  }
+  if (vh_chance(rng, 1, 3)) {
+    app_cfg.flags |= ARES_FLAG_STAYOPEN;
+  }
+  app_cfg.timeout_ms = 2000;
+  app_cfg.tries      = vh_range(rng, 1, 3);
+  app_cfg.nsrv_cfg   = vh_range(rng, 1, 2);
+  app_cfg.srv_cfg[0] = (int)vh_below(rng, 3);
+  app_cfg.srv_cfg[1] = (app_cfg.srv_cfg[0] + 1) % 3;
+  sim_cfg.tfo_supported = vh_chance(rng, 1, 4);
+  app_sched.max_steps     = 400000;
+  app_sched.idle_ms_after = 30;
+  /* the structural monitors have their own checks (C01/C07/C10); here they only cost time */
+  mon_enable_idx = mon_enable_fd = mon_enable_timer = 0;
+  /* batch of queries queued at the same instant (before the connection completes) */
+  n = vh_range(rng, 1, 20);
+  for (i = 0; i < n; i++) {
+    int ti = gen_add_token(rng, vh_chance(rng, 4, 5) ? 0 : (int64_t)vh_below(rng, 50000));
+    if (ti >= 0) {
+      static const int ty[] = { 1, 28, 16 };
+      app_tok[ti].qtype    = ty[vh_below(rng, 3)];
+    }
+  }
+}
+
+static void xp_capture(xp_digest_t *d)
+{
+  int i, k;
+  memset(d, 0, sizeof(*d));
+  d->ntok = app_ntok;
+  for (i = 0; i < app_ntok; i++) {
+    uint64_t h     = VH_FNV_INIT;
+    d->status[i]   = app_tok[i].cb_status;
+    d->timeouts[i] = app_tok[i].cb_timeouts;
+    d->cbs[i]      = app_tok[i].cb_count;
+    d->nser[i]     = app_tok[i].nserials;
+    for (k = 0; k < app_tok[i].nserials; k++) {
+      /* serial numbers depend on the order servers answered; compare record counts and TTLs instead */
+      h = vh_fnv_u64(h, app_tok[i].ttls[k]);
+    }
+    d->serhash[i] = h;
+  }
+  d->ntx    = sim_ntx;
+  d->txhash = VH_FNV_INIT;
+  for (i = 0; i < sim_ntx; i++) {
+    if (sim_tx[i].tcp) {
+      d->ntx_tcp++;
+      d->txhash_tcp = vh_fnv_str(d->txhash_tcp, sim_tx[i].qname);
+      d->txhash_tcp = vh_fnv_u64(d->txhash_tcp, (uint64_t)sim_tx[i].qtype * 8 + (uint64_t)sim_tx[i].srv);
+    }
+  }
+  d->bad_frames = xp_bad_frames;
+}
+
+/* TC over UDP => the same question next appears over TCP unless truncation is ignored */
+static void xp_check_tc(const char *run)
+{
+  int i, j;
+  for (i = 0; i < sim_ntx; i++) {
+    if (sim_tx[i].tcp || sim_tx[i].action != SA_TC) {
+      continue;
+    }
+    MON_EVAL("xport_tc_followup");
+    if (app_cfg.flags & ARES_FLAG_IGNTC) {
+      continue;
+    }
+    /* was the TC reply actually read by the library while the query was still on that socket?
+     * only then must a TCP transmission follow; accept "query ended otherwise" (cancel etc. not generated here) */
+    for (j = i + 1; j < sim_ntx; j++) {
+      if (sim_tx[j].qid == sim_tx[i].qid && !strcmp(sim_tx[j].qname, sim_tx[i].qname) && sim_tx[j].qtype == sim_tx[i].qtype) {
+        break;
+      }
+    }
+    if (j < sim_ntx && !sim_tx[j].tcp) {
+      /* next transmission of that query is UDP again: legitimate only if it timed out first (reply delayed
+       * beyond the timeout) - replies here arrive within 20 ms of a 2000 ms timeout */
+      vh_violation("xport:tc-not-upgraded", "run %s: query '%s' got a truncated UDP reply but was next sent over UDP again", run,
+                   sim_tx[i].qname);
+    }
+  }
+}
+
+static void run_transport(vh_rng_t *rng)
+{
+  vh_rng_t r0 = *rng;
+  int      i, nontrivial;
+  /* run A: whole-message reads, full writes */
+  gen_transport(rng);
+  srv_frame_hook = xp_frame_hook;
+  xp_bad_frames  = 0;
+  run_generic(rng);
+  xp_check_tc("A");
+  xp_capture(&xp_a);
+  /* run B: same case, chopped transport */
+  case_begin();
+  *rng = r0;
+  gen_transport(rng);
+  srv_frame_hook          = xp_frame_hook;
+  xp_bad_frames           = 0;
+  sim_cfg.tcp_seg_mode    = 1 + (int)vh_below(&seg_rng, 2);
+  if (sim_cfg.tcp_seg_mode == 2) {
+    /* one byte per read: keep responses small enough to finish within the step budget */
+    for (i = 0; i < sim_nsrv; i++) {
+      if (sim_srv[i].default_nrec > 40) {
+        sim_cfg.tcp_seg_mode = 1;
+      }
+    }
+  }
+  sim_cfg.tcp_write_mode  = (int)vh_below(&seg_rng, 3);
+  sim_cfg.wblock_permille = vh_chance(&seg_rng, 1, 2) ? 250 : 0;
+  sim_cfg.use_pending_write_cb = vh_chance(&seg_rng, 1, 2);
+  /* NOTE: how the application polls (one descriptor per call, blocking-socket mode) is deliberately NOT varied
+   * between A and B: reporting readiness late lets timers fire first, which legitimately changes outcomes and
+   * has nothing to do with how the transport chops bytes. */
+  {
+    /* B also sprinkles zero-length datagrams (harmless by the statement) */
+    int z = (int)vh_below(&seg_rng, 3);
+    for (i = 0; i < z; i++) {
+      /* delivered to whatever UDP socket is open at that time: see app hook below */
+      gen_add_action((int64_t)vh_below(&seg_rng, 40000), AA_READONLY, 0, 0);
+    }
+  }
+  run_generic(rng);
+  xp_check_tc("B");
+  xp_capture(&xp_b);
+  xp_b.splits = (int)0;
+  /* compare */
+  MON_EVAL("xport_ab_compare");
+  if (xp_a.ntok != xp_b.ntok) {
+    vh_violation("xport:ab-differs:requests", "A had %d requests, B %d", xp_a.ntok, xp_b.ntok);
+  }
+  for (i = 0; i < xp_a.ntok && i < xp_b.ntok; i++) {
+    if (xp_a.status[i] != xp_b.status[i] || xp_a.cbs[i] != xp_b.cbs[i]) {
+      vh_violation("xport:ab-differs:status", "request %d ('%s'): unsegmented run status %d (%d callbacks), chopped run status %d (%d callbacks)",
+                   i, app_tok[i].name, xp_a.status[i], xp_a.cbs[i], xp_b.status[i], xp_b.cbs[i]);
+      break;
+    }
+    if (xp_a.nser[i] != xp_b.nser[i] || xp_a.serhash[i] != xp_b.serhash[i]) {
+      vh_violation("xport:ab-differs:payload", "request %d ('%s'): unsegmented run delivered %d records, chopped run %d (or TTLs differ)", i,
+                   app_tok[i].name, xp_a.nser[i], xp_b.nser[i]);
+      break;
+    }
+    if (xp_a.timeouts[i] != xp_b.timeouts[i]) {
+      vh_violation("xport:ab-differs:timeouts", "request %d: timeouts %d vs %d", i, xp_a.timeouts[i], xp_b.timeouts[i]);
+      break;
+    }
+  }
+  if (xp_a.ntx_tcp != xp_b.ntx_tcp || xp_a.txhash_tcp != xp_b.txhash_tcp) {
+    vh_violation("xport:ab-differs:server-stream", "servers received %d TCP messages in the unsegmented run, %d in the chopped run (or order/content differs)",
+                 xp_a.ntx_tcp, xp_b.ntx_tcp);
+  }
+  nontrivial = 0;
+  {
+    /* was B actually chopped? counters are global; use the per-case deltas kept by sim_note via callcounts */
+    nontrivial = (xp_b.ntx_tcp > 0) && (sim_cfg.tcp_seg_mode || sim_cfg.tcp_write_mode || sim_cfg.wblock_permille);
+  }
+  case_nontrivial = nontrivial;
+  if (nontrivial) {
+    uint64_t h = VH_FNV_INIT;
+    h          = vh_fnv_u64(h, (uint64_t)sim_cfg.tcp_seg_mode * 100 + (uint64_t)sim_cfg.tcp_write_mode * 10 + (uint64_t)(sim_cfg.wblock_permille ? 1 : 0));
+    h          = vh_fnv_u64(h, (uint64_t)(app_ntok > 10 ? 11 : app_ntok));
+    h          = vh_fnv_u64(h, (uint64_t)sim_cfg.use_pending_write_cb * 4 + (uint64_t)sim_cfg.one_fd_per_call * 2 + (uint64_t)sim_cfg.tfo_supported);
+    h          = vh_fnv_u64(h, (uint64_t)(xp_b.ntx_tcp > 8 ? 9 : xp_b.ntx_tcp));
+    vh_count("nontrivial_cases");
+    vh_fp_add(h);
+  }
+}
+
 static int profile_run(const char *profile, vh_rng_t *rng, uint64_t idx)
 {
   (void)idx;
@@ -376,6 +612,10 @@ static int profile_run(const char *profile, vh_rng_t *rng, uint64_t idx)
     gen_hostile(rng);
     run_generic(rng);
     hostile_fingerprint();
+    return 1;
+  }
+  if (!strcmp(profile, "transport")) {
+    run_transport(rng);
     return 1;
   }
   if (!strcmp(profile, "retry")) {
